@@ -14,6 +14,7 @@ import Props.C01
 import Proofs.GoTieSsh
 import Proofs.GoTieWitnessA
 import Proofs.GoTieFileRT
+import Proofs.GoTiePipeline
 namespace AgeModel
 namespace Tie.C01
 
@@ -181,6 +182,78 @@ theorem code_file_roundtrip_instance :
     (List.replicate 64 7) (by intro r hr; simp only [List.map_cons, List.map_nil, List.mem_singleton] at hr; subst hr; exact producesWF_x25519 _ hP _)
     fk st t _ _ hh hn [] [] (Identity.x25519 [1]) (by intro i hi; cases hi) hid'
   exact ⟨res, _, h1, h2, h6⟩
+
+/-! **The whole pipeline in one statement** (`code_pipeline`): the translated `age.Encrypt` on an empty destination
+that takes every write; the writer it returns is the translated stream writer over that destination; ANY input in
+ANY split into writes goes through the translated `Write`, then `Close`; the destination then holds
+header ‖ nonce ‖ payload; the translated `age.Decrypt` over those bytes — any identity list whose first identity
+not answering "incorrect identity" opens the file key — returns a reader under the SAME stream key over the payload;
+and the translated stream reader over that payload under that key, called with any sequence of positive buffer sizes
+long enough to reach the end, returns exactly the input followed by io.EOF. What joins the halves is stated as
+hypotheses: the handle `Encrypt` returns IS the stream writer's initial state over the destination (`hmk`: what
+`stream.NewWriter` builds, `Tie/C12.newWriter_tie`) and the two views of the destination coincide (`hD`). -/
+
+theorem code_pipeline (P : Prims) (hP : P.Correct) (hN : P.aead.NonceSep) {ρ δ α ι : Type}
+    (EE : GoTie.EncryptEnv P Stream.DstSpec.perfect ρ δ (Extracted.stream_Writer α δ)) (DE : GoTie.DecryptEnv P ι)
+    (d : δ) (hd : (EE.absD d).acc = []) (rs : List ρ) (tape : Bytes)
+    (hrs : ∀ r ∈ rs.map EE.recOf, r.ProducesWF P)
+    (fk : Bytes) (stanzas : List Format.Stanza) (t nonce t' : Bytes)
+    (hh : encryptHeader P tape (rs.map EE.recOf) = .ok (fk, stanzas, t))
+    (hn : draw streamNonceSize t = some (nonce, t'))
+    (pre post : List ι) (id : ι)
+    (hpre : ∀ i ∈ pre, (DE.idOf i).unwrap P stanzas = .incorrect) (hid : (DE.idOf id).unwrap P stanzas = .key fk)
+    (a : α)
+    (hmk : ∀ d', EE.mkW (streamKey P fk nonce) d' = ⟨a, d', 0, 0, List.replicate 65552 0, List.replicate 12 0, none⟩)
+    (SE : GoTie.AeadEnv α P.aead (streamKey P fk nonce)) (D : GoTie.DstEnv δ Stream.DstSpec.perfect) (hD : D.absD = EE.absD)
+    (ps : List Bytes) (hlen : ps.flatten.length < 2 ^ 64) (sizes : List Nat) (hpos : ∀ s ∈ sizes, 0 < s)
+    (hlong : ps.flatten.length + (Stream.encrypt P.aead 65536 (streamKey P fk nonce) ps.flatten).length + 1 < sizes.length) :
+    ∃ res w1 w2 r',
+      Extracted.age_Encrypt EE.nilW (GoTie.tapeRead EE.eRand) EE.W EE.mac EE.marshalF EE.write EE.newWriter EE.key d rs tape = .ok res ∧
+      res.2.1 = none ∧
+      GoTie.streamWrites SE D res.1 ps = .ok (none, w1) ∧
+      Extracted.stream_Writer_Close SE.seal_ D.write w1 = .ok (none, w2) ∧
+      (EE.absD w2.dst).acc = headerBytes P fk stanzas ++ nonce ++ Stream.encrypt P.aead 65536 (streamKey P fk nonce) ps.flatten ∧
+      Extracted.age_Decrypt DE.D DE.U GoTie.errorsIsEq DE.mac DE.newReader DE.key (EE.absD w2.dst).acc (pre ++ id :: post) =
+        .ok (streamKey P fk nonce ++ Stream.encrypt P.aead 65536 (streamKey P fk nonce) ps.flatten, none) ∧
+      GoTie.streamReads SE ⟨a, ⟨Stream.encrypt P.aead 65536 (streamKey P fk nonce) ps.flatten, false⟩, 0, 0, List.replicate 65552 0, none,
+          List.replicate 12 0⟩ sizes = .ok (r', ps.flatten, Go.io_EOF) :=
+  GoTie.code_pipeline P hP hN EE DE d hd rs tape hrs fk stanzas t nonce t' hh hn pre post id hpre hid a hmk SE D hD ps hlen sizes hpos hlong
+
+/-- non-vacuity of the pipeline: toy primitives, one X25519 recipient, a 64-byte tape, the writer handle being the
+    stream writer's initial state, ANY input below 2^64 bytes in any split, one-byte reads — every premise holds, so
+    the run exists and ends with the input followed by io.EOF -/
+theorem code_pipeline_instance (ps : List Bytes) (hlen : ps.flatten.length < 2 ^ 64) :
+    ∃ (K payload : Bytes) (sizes : List Nat) (r' : Extracted.stream_Reader Unit),
+      (∀ s ∈ sizes, 0 < s) ∧
+      GoTie.streamReads (GoTie.AeadEnv.witness K) ⟨(), ⟨payload, false⟩, 0, 0, List.replicate 65552 0, none, List.replicate 12 0⟩ sizes =
+        .ok (r', ps.flatten, Go.io_EOF) ∧
+      ∃ file : Bytes, Extracted.age_Decrypt GoTie.DecryptEnv.witness.D GoTie.DecryptEnv.witness.U GoTie.errorsIsEq GoTie.DecryptEnv.witness.mac
+          GoTie.DecryptEnv.witness.newReader GoTie.DecryptEnv.witness.key file [Identity.x25519 [1]] = .ok (K ++ payload, none) := by
+  let mkW : Bytes → Stream.Dst Stream.DstSpec.perfect → Extracted.stream_Writer Unit (Stream.Dst Stream.DstSpec.perfect) :=
+    fun _ d => ⟨(), d, 0, 0, List.replicate 65552 0, List.replicate 12 0, none⟩
+  let EE := GoTie.EncryptEnv.witnessW Stream.DstSpec.perfect (mkW [] ⟨[], ()⟩) mkW
+  let DE := GoTie.DecryptEnv.witness
+  have hP := Prims.toy16_correct
+  obtain ⟨fk, st, t, hh, hid, ht⟩ : ∃ fk st t, encryptHeader Prims.toy16 (List.replicate 64 7) [Recipient.x25519 (List.replicate 32 0)] = .ok (fk, st, t) ∧
+      (Identity.x25519 [1]).unwrap Prims.toy16 st = .key fk ∧ t = List.replicate 16 7 :=
+    ⟨_, _, _, rfl, by decide, by decide⟩
+  have hn : draw streamNonceSize t = some (List.replicate 16 7, []) := by subst ht; decide
+  have hid' : (DE.idOf (Identity.x25519 [1])).unwrap Prims.toy16 st = .key fk := by
+    have hne : (Identity.x25519 [1]).unwrap Prims.toy16 st ≠ .key [] := by
+      rw [hid]; intro e
+      have hfk := (encryptHeader_fk hh).1
+      simp only [UnwrapResult.key.injEq] at e
+      rw [e] at hfk; simp [fileKeySize] at hfk
+    show (GoTie.sanitize Prims.toy16 (Identity.x25519 [1])).unwrap Prims.toy16 st = .key fk
+    rw [GoTie.sanitize_unwrap Prims.toy16 _ st hne, hid]
+  let n := ps.flatten.length + (Stream.encrypt Prims.toy16.aead 65536 (streamKey Prims.toy16 fk (List.replicate 16 7)) ps.flatten).length + 2
+  obtain ⟨res, w1, w2, r', _, _, _, _, _, hdec, hrd⟩ := code_pipeline Prims.toy16 hP AEAD.toy16_nonceSep EE DE ⟨[], ()⟩ rfl
+    [Recipient.x25519 (List.replicate 32 0)] (List.replicate 64 7)
+    (by intro r hr; simp only [List.map_cons, List.map_nil, List.mem_singleton] at hr; subst hr; exact producesWF_x25519 _ hP _)
+    fk st t _ _ hh hn [] [] (Identity.x25519 [1]) (by intro i hi; cases hi) hid' () (fun _ => rfl)
+    (GoTie.AeadEnv.witness (streamKey Prims.toy16 fk (List.replicate 16 7))) (GoTie.DstEnv.witness Stream.DstSpec.perfect) rfl ps hlen (List.replicate n 1)
+    (by intro s hs; rw [List.mem_replicate] at hs; omega) (by rw [List.length_replicate]; omega)
+  exact ⟨streamKey Prims.toy16 fk (List.replicate 16 7), _, _, r', by intro s hs; rw [List.mem_replicate] at hs; omega, hrd, _, hdec⟩
 
 /-- **the assumption structures this file's theorems take are satisfiable** (for a lawful toy primitive suite
     with the 16-byte tag, where they mention primitives): none of the theorems above is vacuous. The instances are in
